@@ -80,7 +80,10 @@ structure Keys where
   src : Id → List Res := fun _ => []
   fin : Id → List Res := fun _ => []
   dlv : Id → List Res := fun _ => []
+  /-- `waker.wake()` calls made by `set_result` for this operation -/
   woken : Id → Nat := fun _ => 0
+  /-- `wake_by_ref()` calls made for multishot items -/
+  nudged : Id → Nat := fun _ => 0
   wakeLog : List WakeRec := []
   /-- a `set_result` reached an operation whose storage is gone -/
   uaf : Bool := false
@@ -103,7 +106,8 @@ def Keys.storeResult (ks : Keys) (id : Id) (r : Res) : Keys × Option WakerId :=
 
 /-- `waker.wake()` / `wake_by_ref()`; the log records whether the slot is `Ready` at this moment -/
 def Keys.wake (ks : Keys) (id : Id) (w : WakerId) (final : Bool) : Keys :=
-  { ks with woken := upd ks.woken id (ks.woken id + 1),
+  { ks with woken := if final then upd ks.woken id (ks.woken id + 1) else ks.woken,
+            nudged := if final then ks.nudged else upd ks.nudged id (ks.nudged id + 1),
             wakeLog := ks.wakeLog ++ [⟨id, w, (ks.slot id).isReady, final⟩] }
 
 /-- `Entry::notify` = `ErasedKey::set_result`: store the result, THEN wake the registered waker. -/
